@@ -132,8 +132,10 @@ bool linepart::array::apply(const transform &tr, int dim, span<const double> src
 				old = base[pos];
 			}
 		} else {
+			// shortened line no longer ends in trimmed point
 			if (len < old.usr) {
 				old.usr = len;
+				old._trim = 0;
 			}
 			pt = tr.part(dim, val, old.usr);
 			// minimize leading line
